@@ -73,6 +73,11 @@ class Interp:
             return env["__at__"](idx)
         if isinstance(e, ast.BinOp) and isinstance(e.op, ast.Add):
             return self.ev(e.left, env) + self.ev(e.right, env)
+        if isinstance(e, ast.BinOp) and isinstance(e.op, ast.Mod):
+            return self.ev(e.left, env) % self.ev(e.right, env)
+        if isinstance(e, ast.Call) and ast.unparse(e.func) == "string.count" and len(e.args) == 1 and \
+                isinstance(e.args[0], ast.Constant) and "__count__" in env:
+            return env["__count__"](e.args[0].value)
         if isinstance(e, ast.Call) and ast.unparse(e.func) == "len" and ast.unparse(e.args[0]) == "string":
             return env["__len__"]()
         raise AnalysisError(f"scanner expression not understood: {ast.unparse(e)[:60]}")
@@ -101,35 +106,63 @@ class Interp:
 
 # --------------------------------------------------------------------------- unterminated string
 def extract_unterminated(fn: ast.FunctionDef):
-    """returns (initial state, step(state, cls) -> state, accept(state) -> bool, alphabet)."""
+    """returns (initial state, step(state, cls) -> state, accept(state) -> bool, alphabet).
+
+    Recognised function shape: constant initialisations, optional early `if <cond>: return <const>`
+    statements whose condition may use `string.count(<quote>) % 2` (modelled exactly by two parity
+    bits carried in the automaton state), one `for char in string` loop, one final return."""
     loops = [s for s in fn.body if isinstance(s, ast.For)]
     if len(loops) != 1 or ast.unparse(loops[0].iter) != "string":
         raise AnalysisError("_contains_unterminated_string: `for char in string` loop not found")
     loop = loops[0]
     var = loop.target.id
     init: Dict[str, object] = {}
+    early: List[ast.If] = []
+    ret = None
     for s in fn.body:
+        if isinstance(s, ast.Expr) and isinstance(s.value, ast.Constant):
+            continue
         if isinstance(s, ast.Assign) and isinstance(s.targets[0], ast.Name) and isinstance(s.value, ast.Constant):
             init[s.targets[0].id] = s.value.value
-    ret = [s for s in fn.body if isinstance(s, ast.Return)]
-    if len(ret) != 1:
-        raise AnalysisError("_contains_unterminated_string: single return expected")
+        elif isinstance(s, ast.If) and len(s.body) == 1 and isinstance(s.body[0], ast.Return) and not s.orelse \
+                and fn.body.index(s) < fn.body.index(loop):
+            early.append(s)
+        elif s is loop:
+            continue
+        elif isinstance(s, ast.Return) and s is fn.body[-1]:
+            ret = s
+        else:
+            raise AnalysisError(f"_contains_unterminated_string: statement not understood: {ast.unparse(s)[:60]}")
+    if ret is None:
+        raise AnalysisError("_contains_unterminated_string: final return not found")
     names = sorted(init)
     interp = Interp(["'", '"', X])
 
     def step(state: tuple, cls: str) -> tuple:
-        env = dict(zip(names, state))
+        vals, par = state[:-1], state[-1]
+        env = dict(zip(names, vals))
         env[var] = cls
         try:
             interp.run(loop.body, env)
         except _Continue:
             pass
-        return tuple(env[n] for n in names)
+        ps, pd = par
+        if cls == "'":
+            ps ^= 1
+        elif cls == '"':
+            pd ^= 1
+        return tuple(env[n] for n in names) + ((ps, pd),)
 
     def accept(state: tuple) -> bool:
-        return bool(interp.ev(ret[0].value, dict(zip(names, state))))
+        vals, par = state[:-1], state[-1]
+        env = dict(zip(names, vals))
+        env["__count__"] = lambda c: {"'": par[0], '"': par[1]}.get(c, 0)
+        for e in early:
+            if interp.ev(e.test, dict(env, **{k: init[k] for k in init})):
+                return bool(interp.ev(e.body[0].value, env))
+        return bool(interp.ev(ret.value, env))
 
-    return tuple(init[n] for n in names), step, accept, ["'", '"', X]
+    return tuple(init[n] for n in names) + ((0, 0),), step, accept, ["'", '"', X]
 
 
 def ref_unterminated():
@@ -165,11 +198,8 @@ def compare_acceptors(impl, ref) -> Tuple[Optional[str], int]:
 # --------------------------------------------------------------------------- quote_split
 def extract_quote_split(fn: ast.FunctionDef):
     """Transducer of quote_split: for (state, current class, next class or None) returns
-    (state', advance in {1,2}, split?)."""
-    loops = [s for s in fn.body if isinstance(s, ast.While)]
-    if len(loops) != 1 or ast.unparse(loops[0].test) != "i < len(string)":
-        raise AnalysisError("quote_split: `while i < len(string)` loop not found")
-    loop = loops[0]
+    (state', advance in {1,2}, split?).  Recognised loop forms: `while i < len(string)` with
+    `string[i]` / one character of look-ahead, `for i, char in enumerate(string)`, `for char in string`."""
     init: Dict[str, object] = {}
     for s in fn.body:
         if isinstance(s, ast.Assign) and isinstance(s.targets[0], ast.Name) and isinstance(s.value, ast.Constant):
@@ -178,17 +208,43 @@ def extract_quote_split(fn: ast.FunctionDef):
     if not state_names:
         raise AnalysisError("quote_split: boolean scanner state not found")
     interp = Interp(["'", '"', "S", X])
+    loops = [s for s in fn.body if isinstance(s, (ast.While, ast.For))]
+    if len(loops) != 1:
+        raise AnalysisError("quote_split: scanning loop not found")
+    loop = loops[0]
+    allowed_other = [s for s in fn.body if s is not loop and not (
+        isinstance(s, ast.Expr) and isinstance(s.value, ast.Constant)) and not isinstance(s, (ast.Assign, ast.Return))
+        and not (isinstance(s, ast.If) and any(isinstance(x, ast.Raise) for x in s.body))
+        and not (isinstance(s, ast.Expr) and "retlist.append" in ast.unparse(s))]
+    if allowed_other:
+        raise AnalysisError(f"quote_split: statement not understood: {ast.unparse(allowed_other[0])[:60]}")
+    char_var = None
+    if isinstance(loop, ast.While):
+        if ast.unparse(loop.test) != "i < len(string)":
+            raise AnalysisError("quote_split: `while i < len(string)` loop not found")
+        mode = "while"
+    else:
+        it = ast.unparse(loop.iter)
+        if it == "enumerate(string)" and isinstance(loop.target, ast.Tuple) and len(loop.target.elts) == 2:
+            char_var = loop.target.elts[1].id
+        elif it == "string" and isinstance(loop.target, ast.Name):
+            char_var = loop.target.id
+        else:
+            raise AnalysisError(f"quote_split: loop over `{it}` not understood")
+        mode = "for"
 
     def step(state: tuple, cur: str, nxt: Optional[str]):
         env: Dict[str, object] = dict(zip(state_names, state))
         env.update({"i": 0, "left": 0, "sep": "S", "__split__": False})
         env["__len__"] = lambda: 1 if nxt is None else 2
         env["__at__"] = lambda k: cur if k == 0 else (nxt if (k == 1 and nxt is not None) else _oob())
+        if char_var:
+            env[char_var] = cur
         try:
             interp.run(loop.body, env)
         except _Continue:
             pass
-        adv = env["i"]
+        adv = env["i"] if mode == "while" else 1
         if adv not in (1, 2):
             raise AnalysisError(f"quote_split: iteration advances by {adv}")
         return tuple(env[n] for n in state_names), adv, bool(env["__split__"])
